@@ -99,6 +99,23 @@ func Run(w *World, cfg RunCfg) (*Outcome, error) {
 	for _, ds := range w.DaemonSets {
 		kit.Apply(ctx, cl, ds.DeepCopy())
 	}
+	for _, sc := range w.StorageClasses {
+		kit.Apply(ctx, cl, sc.DeepCopy())
+	}
+	for _, name := range w.VolOrder {
+		vs := w.Vols[name]
+		if vs.PV != nil {
+			kit.Apply(ctx, cl, vs.PV.DeepCopy())
+			// VolumeTopology looks the (cluster-scoped) PV up with the pod's namespace, which an API server ignores and the fake client does not
+			nsCopy := vs.PV.DeepCopy()
+			nsCopy.Namespace = vs.PVC.Namespace
+			kit.Apply(ctx, cl, nsCopy)
+		}
+		kit.Apply(ctx, cl, vs.PVC.DeepCopy())
+	}
+	for _, node := range kit.SortedKeys(w.CSILimits) {
+		kit.Apply(ctx, cl, csiNode(node, w.CSILimits[node]))
+	}
 	cluster := state.NewCluster(clk, cl, cp)
 	prov := provisioning.NewProvisioner(cl, events.NewRecorder(&record.FakeRecorder{}), cp, cluster, clk, deviceallocation.NewController(cl), virtualpods.NewVirtualPodCache(cl))
 
@@ -188,9 +205,9 @@ func Run(w *World, cfg RunCfg) (*Outcome, error) {
 	}
 	orig := func(p *corev1.Pod) PodDump {
 		if o, ok := originals[p.UID]; ok {
-			return DumpPod(o)
+			return w.DumpPod(o)
 		}
-		return DumpPod(p)
+		return w.DumpPod(p)
 	}
 	poolKeys := map[string][]string{}
 	for _, np := range w.Pools {
@@ -236,9 +253,12 @@ func Run(w *World, cfg RunCfg) (*Outcome, error) {
 			name = en.NodeClaim.Status.NodeName
 		}
 		ed := ExistingDump{Name: name, Kind: kindOf[name], Labels: sortedPairs(en.Labels()), Taints: DumpTaints(en.VerifC01Taints()),
-			Alloc: Milli(en.Allocatable()), Remaining: Milli(en.VerifC01Remaining()), Bound: []PodDump{}, Placed: []PodDump{}, Daemons: []PodDump{}}
+			Alloc: Milli(en.Allocatable()), Remaining: Milli(en.VerifC01Remaining()), VLimits: map[string]int64{}, Bound: []PodDump{}, Placed: []PodDump{}, Daemons: []PodDump{}}
+		for d, l := range w.CSILimits[name] {
+			ed.VLimits[d] = int64(l)
+		}
 		for _, p := range boundBy[name] {
-			ed.Bound = append(ed.Bound, DumpPod(p))
+			ed.Bound = append(ed.Bound, w.DumpPod(p))
 		}
 		for _, p := range en.Pods {
 			ed.Placed = append(ed.Placed, orig(p))
